@@ -712,6 +712,101 @@ class Body:
             self.text = self.text[:a] + rep + self.text[b:]
             self.toks = lex(self.text)
 
+    # R8 (plain form): V.extend(E);  with E a collection-valued expression without closures or iterator adapters
+    #     ->  for x__e in E { V.push(x__e); }      (Extend for Vec pushes every item of E in iteration order)
+    ADAPTERS = ('map', 'filter', 'filter_map', 'flat_map', 'copied', 'cloned', 'rev', 'chain', 'zip', 'iter', 'into_iter',
+                'keys', 'values', 'enumerate', 'skip', 'take', 'flatten', 'peekable', 'drain')
+
+    def r8_extend_plain(self):
+        guard = 0
+        while True:
+            guard += 1
+            if guard > 100:
+                raise ExtractError('R8: rewrite did not terminate')
+            code = self.code()
+            T = lambda ci: self.toks[code[ci]]
+            n = len(code)
+            hit = None
+            for ci in range(2, n - 3):
+                t = T(ci)
+                if not (t[0] == 'ident' and t[1] == 'extend' and T(ci - 1)[1] == '.' and T(ci + 1)[1] == '('):
+                    continue
+                close = self._close(code, ci + 1)
+                if not (close + 1 < n and T(close + 1)[1] == ';'):
+                    continue
+                if not (T(ci - 2)[0] == 'ident' and (ci - 3 < 0 or T(ci - 3)[1] in ('{', '}', ';'))):
+                    continue
+                inner = [T(k) for k in range(ci + 2, close)]
+                if not inner or any(x[1] == '|' for x in inner):
+                    continue
+                if any(x[0] == 'ident' and x[1] in self.ADAPTERS and i > 0 and inner[i - 1][1] == '.' for i, x in enumerate(inner)):
+                    continue
+                arg_txt = self.text[T(ci + 2)[2]:T(close - 1)[3]]
+                rep = 'for x__e in %s { %s.push(x__e); }' % (arg_txt, T(ci - 2)[1])
+                hit = (T(ci - 2)[2], T(close + 1)[3], rep, t)
+                break
+            if not hit:
+                return
+            a, b, rep, t = hit
+            self.rewrites.append(dict(rule='R8 extend-plain', line=self.line(t[2]), what='V.extend(E) -> for x in E { V.push(x) }'))
+            self.text = self.text[:a] + rep + self.text[b:]
+            self.toks = lex(self.text)
+
+    # R10: a body that IS the expression  E.into_iter().map(|p| F).collect()   (result type Vec<_>, from the signature)
+    #     ->  let mut out__c = Vec::new(); for p in E { out__c.push(F); } out__c
+    #     (into_iter yields the items in order, map applies the closure to each, collect::<Vec<_>> pushes them in order)
+    def r10_map_collect_tail(self):
+        code = self.code()
+        T = lambda ci: self.toks[code[ci]]
+        n = len(code)
+        if n < 12:
+            return
+        # ... . into_iter ( ) . map ( | p | F ) . collect ( )
+        if not (T(n - 1)[1] == ')' and T(n - 2)[1] == '(' and T(n - 3)[1] == 'collect' and T(n - 4)[1] == '.' and T(n - 5)[1] == ')'):
+            return
+        mopen = None
+        depth = 0
+        for k in range(n - 5, -1, -1):
+            x = T(k)[1]
+            if T(k)[0] == 'punct' and x in CLOSE:
+                depth += 1
+            elif T(k)[0] == 'punct' and x in OPEN:
+                depth -= 1
+                if depth == 0:
+                    mopen = k
+                    break
+        if mopen is None or mopen < 6 or not (T(mopen - 1)[1] == 'map' and T(mopen - 2)[1] == '.'):
+            return
+        if not (T(mopen - 3)[1] == ')' and T(mopen - 4)[1] == '(' and T(mopen - 5)[1] == 'into_iter' and T(mopen - 6)[1] == '.'):
+            return
+        if T(mopen + 1)[1] != '|':
+            return
+        k = mopen + 2
+        while k < n - 5 and T(k)[1] != '|':
+            k += 1
+        pat = self.text[T(mopen + 2)[2]:T(k - 1)[3]].strip()
+        if not re.fullmatch(r'[A-Za-z_][A-Za-z0-9_]*', pat):
+            raise ExtractError('R10: closure parameter is not a plain identifier at line %d' % self.line(T(mopen)[2]))
+        for x in range(k + 1, n - 5):
+            if T(x)[1] in ('return', 'break', 'continue', '?'):
+                raise ExtractError('R10: closure body with control flow at line %d' % self.line(T(mopen)[2]))
+        body_txt = self.text[T(k + 1)[2]:T(n - 6)[3]]
+        recv_txt = self.text[T(0)[2]:T(mopen - 7)[3]]
+        # the receiver must be one expression (no statement separators at depth 0)
+        depth = 0
+        for x in range(0, mopen - 6):
+            y = T(x)
+            if y[0] == 'punct' and y[1] in OPEN:
+                depth += 1
+            elif y[0] == 'punct' and y[1] in CLOSE:
+                depth -= 1
+            elif depth == 0 and y[1] == ';':
+                return
+        rep = 'let mut out__c = Vec::new(); for %s in %s { out__c.push(%s); } out__c' % (pat, recv_txt, body_txt)
+        self.rewrites.append(dict(rule='R10 map-collect', line=self.line(T(mopen)[2]), what='E.into_iter().map(|p| F).collect() -> for p in E { out.push(F) }'))
+        self.text = self.text[:T(0)[2]] + rep + self.text[T(n - 1)[3]:]
+        self.toks = lex(self.text)
+
     # R1: `&x` / `&mut x`-free ref patterns: Some(&x) -> Some(x__r) + let x = *x__r;
     def r1_ref_patterns(self):
         code = self.code()
